@@ -526,6 +526,18 @@ def emit_req_v(path):
         known[m] = f
     for f in fns:
         L += f.record()
+    # the string constants that poll() assigns to its state local, in source order (the bridge proof refers to them by position:
+    # waiting for the response, waiting for the ACK, done, timed out)
+    tags = {}
+    assigns = [node for node in ast.walk(known['poll'].fn)
+               if isinstance(node, ast.Assign) and len(node.targets) == 1 and isinstance(node.targets[0], ast.Name)
+               and isinstance(node.value, ast.Constant) and isinstance(node.value.value, str)]
+    for node in sorted(assigns, key=lambda n_: (n_.lineno, n_.col_offset)):
+        tags.setdefault(node.targets[0].id, [])
+        if node.value.value not in tags[node.targets[0].id]:
+            tags[node.targets[0].id].append(node.value.value)
+    best = max(tags.values(), key=len) if tags else []
+    L.append('Definition g_poll_state_strings : list string := [' + '; '.join(coq_str(x) + '%string' for x in best) + '].')
     L += ['', 'Section G.', 'Context {E : Type} (B : backend E) (sk : list N).',
           'Notation fres := (@fres E).', '']
     for f in fns:
